@@ -9,6 +9,8 @@ CONSTANTS
   LookupsCap = 0
   FailKeep = FALSE
   RegionMemo = FALSE
+  NegCache = FALSE
+  SubMRU = FALSE
 SPECIFICATION TSpec
 POSTCONDITION AllConsumed
 CHECK_DEADLOCK FALSE
